@@ -123,6 +123,15 @@ def r2(F, R):
         ehf = [(s, t) for s, t in b.calls(lambda t: callee_is(t, r"Stats::execution_has_failed$"))]
         if ehf:
             cands.append((b, ehf))
+    if not cands:
+        # no coroutine asks the verdict: name the one that decides the exit (awaits the run, may panic) instead of failing closed
+        exits = [b for b in F.crate_bodies() if b.is_coroutine and b.name.startswith("cucumber::")
+                 and any(True for _ in b.calls(lambda t: callee_is(t, *PANICS) and t["t"] < 0))
+                 and any(True for _ in A.awaits(b))]
+        if len(exits) == 1:
+            R.violation("exit-consults-verdict", exits[0], "the routine that awaits the run and panics never asks the writer's execution_has_failed(): "
+                        "the exit code is decided by something else than the verdict")
+            return
     if len(cands) != 1:
         raise Unverifiable(f"EXIT role (coroutine calling execution_has_failed in cucumber::): {len(cands)}")
     b, ehf = cands[0]
@@ -556,5 +565,12 @@ def r12(F, R):
     c03.r8(F, R)
 
 
+def r13(F, R):
+    """"a skipped step counts as failed only under `fail_on_skipped` for scenarios not tagged `@allow.skipped`": the
+    transformation table of FailOnSkipped and the default predicate reachable from `Ext::fail_on_skipped` (= C13.R1)."""
+    from . import c13
+    c13.r1(F, R)
+
+
 RULES = [("R8", r8, _LIB), ("R1", r1, _LIB), ("R2", r2, _LIB), ("R3", r3, _LIB), ("R4", r4, _LIB), ("R5", r5, ["all", "libtest"]),
-         ("R6", r6, _LIB), ("R7", r7, _LIB), ("R9", r9, ["zoo:default"]), ("R10", r10_init, _LIB), ("R11", r11, _LIB), ("R12", r12, _LIB)]
+         ("R6", r6, _LIB), ("R7", r7, _LIB), ("R9", r9, ["zoo:default"]), ("R10", r10_init, _LIB), ("R11", r11, _LIB), ("R12", r12, _LIB), ("R13", r13, _LIB)]
